@@ -144,6 +144,49 @@ def nth_session_of_a_server(sfl: int, cfl: int, ti: int, pi_: int, who: int) -> 
     return verdict(untraced(_nth, sfl, cfl, ti, pi_, who))
 
 
+def _empty_binary(sfl, cfl, ti):
+    """Both sides send a message whose payload is the empty byte string, then an ordinary one."""
+    k = Kernel()
+    srv = (ThreadedSut if sfl == 0 else AsyncSut)(k=k, async_handlers=False, ping_interval=PI, ping_timeout=PT)
+    cl = (ThreadedClientSut if cfl == 0 else AsyncClientSut)(k, ServerPeer(srv))
+    st = dict(server=srv.flavour, client=cl.flavour, transports=repr(TRANSPORTS[ti]), payload="b''")
+    try:
+        h = cl.call('connect', 'http://h.example', transports=TRANSPORTS[ti])
+        k.settle()
+        if h.exc is not None or cl.state() != 'connected':
+            return fail(PROP, 'CONNECT', 'connect: %r state %s' % (h.exc, cl.state()), **st)
+        sid = srv.sids()[0]
+        for d in (b'', 'c-after'):
+            cl.call('send', d)
+            k.settle()
+        for d in (b'', 's-after'):
+            srv.app_send(sid, d)
+            k.settle()
+        k.run(until=k.now + 1)
+        got_s = [a for kk, s_, a in srv.events if kk == 'message']
+        got_c = [a for kk, a in cl.events if kk == 'message']
+        if got_s != [b'', 'c-after']:
+            return fail(PROP, 'CLIENT-TO-SERVER', "client sent b'' and 'c-after', server received %r" % (got_s,), **st)
+        if sorted(map(repr, got_c)) != sorted(map(repr, [b'', 's-after'])):
+            return fail(PROP, 'SERVER-TO-CLIENT', "server sent b'' and 's-after', client received %r" % (got_c,), **st)
+        if [e for e in cl.events if e[0] == 'disconnect'] or [1 for kk, s_, a in srv.events if kk == 'disconnect']:
+            return fail(PROP, 'SPURIOUS-DISCONNECT', 'an empty binary message ended the connection: client %r server %r' % (
+                [e for e in cl.events if e[0] == 'disconnect'], [a for kk, s_, a in srv.events if kk == 'disconnect']), **st)
+        return ''
+    finally:
+        cl.close()
+        srv.close()
+
+
+@cond(quick=dict(timeout=60), thorough=dict(timeout=120))
+def empty_binary_both_ways(sfl: int, cfl: int, ti: int) -> str:
+    """
+    pre: 0 <= sfl <= 1 and 0 <= cfl <= 1 and 0 <= ti <= 2
+    post: _ == ''
+    """
+    return verdict(untraced(_empty_binary, sfl, cfl, ti))
+
+
 def _backpressure(sfl, cfl, ti, n_during, who, c0=0, c1=0):
     """WebSocket in use (directly or after the upgrade). The client stops reading for a while (network back-pressure: the
     server's write of the next frame does not complete), the server application keeps sending and then one side
